@@ -88,7 +88,10 @@ def phi_1D(xx, nu=1.0, theta0=1.0, gamma=0, h=0.5, theta=None, beta=1, deme_ids=
         integrand = lambda xi, q: numpy.exp(-4*gamma*h*(xi-q) -
                                             2*gamma*(1-2*h)*(xi**2-q**2))
         for ii,q in enumerate(xx):
-            val, eps = scipy.integrate.quad(integrand, q, 1, args=(q,))
+            # Breakpoints help quad resolve the integrand, which for strong
+            # selection is sharply peaked at xi = q.
+            val, eps = scipy.integrate.quad(integrand, q, 1, args=(q,),
+                                            points=numpy.linspace(q,1,41))
             ints[ii] = val
         phi = ints/int0
 
